@@ -80,6 +80,38 @@ func zzC01(n int, storeKind int) {
 	zzvAssert("q1-in-bin-of-maximum", ok1)
 }
 
+// queries interleaved with additions: the answer after a later addition must reflect it (a store that
+// caches anything at query time must invalidate it)
+func zzC01Interleaved(storeKind int) {
+	zzvBound("interleaved", "add one value, query, add a second value, query again (every q); real sparse / paginated store; contract mapping")
+	zzvMapOrders(2)
+	zzvExactFloatsOnly()
+	m := zzContract()
+	s := NewDDSketch(m, zzC01Store(storeKind), zzC01Store(storeKind))
+	v1 := zzTrackable(m, "v")
+	zzvAssert("first-accepted", s.Add(v1) == nil)
+	r0, err0 := s.GetValueAtQuantile(0.5)
+	zzvAssert("first-query", err0 == nil && zzWithinBand(r0, zzEffective(m, v1)))
+	v2 := zzTrackable(m, "v")
+	zzvAssert("second-accepted", s.Add(v2) == nil)
+	eff := []float64{zzEffective(m, v1), zzEffective(m, v2)}
+	q := zzvFloat64("q")
+	zzvAssume(zzvAnd(q >= 0, q <= 1))
+	zzvCover("built")
+	r, err := s.GetValueAtQuantile(q)
+	zzvAssert("quantile-ok", err == nil)
+	rank := q * 1
+	kLo, kHi := int(math.Floor(rank)), int(math.Ceil(rank))
+	ok := false
+	for j := range eff {
+		isK := zzvOr(zzIsOrderStat(eff, eff[j], kLo), zzIsOrderStat(eff, eff[j], kHi))
+		ok = zzvOr(ok, zzvAnd(isK, zzWithinBand(r, eff[j])))
+	}
+	zzvAssert("within-band-of-floor-or-ceil-order-statistic-after-interleaved-query", ok)
+}
+func ZZ_C01_sparse_interleaved_queries() { zzC01Interleaved(0) }
+func ZZ_C01_pag_interleaved_queries()    { zzC01Interleaved(2) }
+
 func ZZ_C01_sparse_n1() { zzC01(1, 0) }
 func ZZ_C01_sparse_n2() { zzC01(2, 0) }
 func ZZ_C01_sparse_n3() { zzC01(3, 0) }
